@@ -125,14 +125,21 @@ def one_case(ctx, index, want_model=True):
         except AssertionError:
             ctx.count('skipped.write_assertion')
             return None
-        blocks1 = block_snapshot(seq)
         libs1 = lib_snapshot(seq)
-        h2 = seq.write(f2, create_signature=True)
-        d1, d2 = open(f1, 'rb').read(), open(f2, 'rb').read()
-        s2 = pp.Sequence(sysr, use_block_cache=rng.random() < 0.5)
-        s2.read(f1)
-        s2.write(f3, create_signature=True)
-        d3 = open(f3, 'rb').read()
+        try:
+            blocks1 = block_snapshot(seq)
+            h2 = seq.write(f2, create_signature=True)
+            d1, d2 = open(f1, 'rb').read(), open(f2, 'rb').read()
+            s2 = pp.Sequence(sysr, use_block_cache=rng.random() < 0.5)
+            s2.read(f1)
+            s2.write(f3, create_signature=True)
+            d3 = open(f3, 'rb').read()
+        except Exception as e:  # noqa: BLE001
+            k = first_diff(libs0, libs1)
+            ctx.evaluated(('raises', index))
+            ctx.fail('C02/raises-after-write' if k is None else 'C02/state-changed-by-write', case,
+                     {'exception': repr(e), 'state_changed': k})
+            return None
     text = d1.decode()
     ctx.evaluated(common.stable_hash(text), nontrivial=len(seq.shape_library.data) > 0)
     ctx.count('cache.' + ('on' if cache else 'off'))
